@@ -144,6 +144,17 @@ let rec sub n0 m =
             | O -> n0
             | S l -> sub k l)
 
+(** val eqb : nat -> nat -> bool **)
+
+let rec eqb n0 m =
+  match n0 with
+  | O -> (match m with
+          | O -> true
+          | S _ -> false)
+  | S n' -> (match m with
+             | O -> false
+             | S m' -> eqb n' m')
+
 type positive =
 | XI of positive
 | XO of positive
@@ -2466,25 +2477,25 @@ type rel =
     ('a1, 'a2) vSOps -> (pkg0 * 'a1 term) list -> (pkg0 -> 'a1 term option)
     -> pkg0 list -> pkg0 list option **)
 
-let rec relation_scan o ts lookup incs =
+let rec relation_scan o ts lookup0 incs =
   match ts with
   | [] -> Some incs
   | p0 :: r ->
     let (p, t0) = p0 in
-    (match option_map (t_relation_with o t0) (lookup p) with
+    (match option_map (t_relation_with o t0) (lookup0 p) with
      | Some r0 ->
        (match r0 with
-        | Satisfied -> relation_scan o r lookup incs
+        | Satisfied -> relation_scan o r lookup0 incs
         | Contradicted -> None
-        | Inconclusive -> relation_scan o r lookup (app incs (p :: [])))
-     | None -> relation_scan o r lookup (app incs (p :: [])))
+        | Inconclusive -> relation_scan o r lookup0 (app incs (p :: [])))
+     | None -> relation_scan o r lookup0 (app incs (p :: [])))
 
 (** val relation0 :
     ('a1, 'a2) vSOps -> (pkg0 * 'a1 term) list -> (pkg0 -> 'a1 term option)
     -> rel **)
 
-let relation0 o ts lookup =
-  match relation_scan o ts lookup [] with
+let relation0 o ts lookup0 =
+  match relation_scan o ts lookup0 [] with
   | Some l ->
     (match l with
      | [] -> RSatisfied
@@ -2818,10 +2829,10 @@ let merge_incompatibility o st id =
   bind (req (nth_error st.store id) PGetUnwrap) (fun cur ->
     match as_dependency cur with
     | Some key ->
-      let lookup = match get2 key st.merged with
-                   | Some l -> l
-                   | None -> [] in
-      bind (find_merge o cur lookup st.store) (fun fm ->
+      let lookup0 = match get2 key st.merged with
+                    | Some l -> l
+                    | None -> [] in
+      bind (find_merge o cur lookup0 st.store) (fun fm ->
         match fm with
         | Some p ->
           let (past, mi) = p in
@@ -2833,7 +2844,7 @@ let merge_incompatibility o st id =
                    (index_drop past mi.terms st.index)); contradicted =
                  st.contradicted; merged =
                  (set2 key
-                   (map (fun i -> if Nat.eqb i past then new0 else i) lookup)
+                   (map (fun i -> if Nat.eqb i past then new0 else i) lookup0)
                    st.merged); ps = st.ps; store = (app st.store (mi :: [])) }
         | None ->
           if has_any o cur.terms
@@ -2841,7 +2852,7 @@ let merge_incompatibility o st id =
           else Good { root = st.root; rootv = st.rootv; index =
                  (index_push id cur.terms st.index); contradicted =
                  st.contradicted; merged =
-                 (set2 key (app lookup (id :: [])) st.merged); ps = st.ps;
+                 (set2 key (app lookup0 (id :: [])) st.merged); ps = st.ps;
                  store = st.store })
     | None ->
       if has_any o cur.terms
@@ -2897,13 +2908,13 @@ let add_version o pso p v range0 st =
   if negb pso.backtracked
   then add_decision o pso p v
   else let exact = t_exact o v in
-       let lookup = fun q -> if N.eqb q p then Some exact else term_for pso q
+       let lookup0 = fun q -> if N.eqb q p then Some exact else term_for pso q
        in
        let news =
          firstn (sub (snd range0) (fst range0)) (skipn (fst range0) st)
        in
        if forallb (fun i ->
-            match relation0 o i.terms lookup with
+            match relation0 o i.terms lookup0 with
             | RSatisfied -> false
             | _ -> true) news
        then add_decision o pso p v
@@ -3754,3 +3765,292 @@ let encode_provider_u32 p =
 
 let decode_provider_u32 j =
   decode_provider decode_range_u32 j
+
+type ('vS, 'vr) merge_res =
+| MMerged of ('vS, 'vr) tree
+| MNotMergeable
+| MPanic
+
+(** val merge_no_versions :
+    ('a1, 'a2) vSOps -> ('a1, 'a2) tree -> pkg0 -> 'a1 -> ('a1, 'a2) merge_res **)
+
+let merge_no_versions o t0 package set0 =
+  match t0 with
+  | TExternal e ->
+    (match e with
+     | XNotRoot (_, _) -> MPanic
+     | XFromDep (p1, r1, p2, r2) ->
+       if N.eqb p1 package
+       then MMerged (TExternal (XFromDep (p1, (o.vs_union r1 set0), p2, r2)))
+       else MMerged (TExternal (XFromDep (p1, r1, p2, (o.vs_union r2 set0))))
+     | _ -> MNotMergeable)
+  | TDerived (_, _, _, _) -> MMerged t0
+
+type ('vS, 'vr) collapse_res =
+| CTree of ('vS, 'vr) tree
+| CPanic
+
+(** val merge_or_keep :
+    ('a1, 'a2) vSOps -> ('a1, 'a2) tree -> pkg0 -> 'a1 -> ('a1, 'a2) tree ->
+    ('a1, 'a2) collapse_res **)
+
+let merge_or_keep o other p r self_now =
+  match merge_no_versions o other p r with
+  | MMerged t' -> CTree t'
+  | MNotMergeable -> CTree self_now
+  | MPanic -> CPanic
+
+(** val collapse_no_versions :
+    ('a1, 'a2) vSOps -> ('a1, 'a2) tree -> ('a1, 'a2) collapse_res **)
+
+let rec collapse_no_versions o t0 = match t0 with
+| TExternal _ -> CTree t0
+| TDerived (ts, sh, c1, c2) ->
+  (match c1 with
+   | TExternal e ->
+     (match e with
+      | XNoVersions (p, r) ->
+        (match collapse_no_versions o c2 with
+         | CTree c2' -> merge_or_keep o c2' p r (TDerived (ts, sh, c1, c2'))
+         | CPanic -> CPanic)
+      | _ ->
+        (match c2 with
+         | TExternal e0 ->
+           (match e0 with
+            | XNoVersions (p, r) ->
+              (match collapse_no_versions o c1 with
+               | CTree c1' ->
+                 merge_or_keep o c1' p r (TDerived (ts, sh, c1', c2))
+               | CPanic -> CPanic)
+            | _ ->
+              (match collapse_no_versions o c1 with
+               | CTree c1' ->
+                 (match collapse_no_versions o c2 with
+                  | CTree c2' -> CTree (TDerived (ts, sh, c1', c2'))
+                  | CPanic -> CPanic)
+               | CPanic -> CPanic))
+         | TDerived (_, _, _, _) ->
+           (match collapse_no_versions o c1 with
+            | CTree c1' ->
+              (match collapse_no_versions o c2 with
+               | CTree c2' -> CTree (TDerived (ts, sh, c1', c2'))
+               | CPanic -> CPanic)
+            | CPanic -> CPanic)))
+   | TDerived (_, _, _, _) ->
+     (match c2 with
+      | TExternal e ->
+        (match e with
+         | XNoVersions (p, r) ->
+           (match collapse_no_versions o c1 with
+            | CTree c1' ->
+              merge_or_keep o c1' p r (TDerived (ts, sh, c1', c2))
+            | CPanic -> CPanic)
+         | _ ->
+           (match collapse_no_versions o c1 with
+            | CTree c1' ->
+              (match collapse_no_versions o c2 with
+               | CTree c2' -> CTree (TDerived (ts, sh, c1', c2'))
+               | CPanic -> CPanic)
+            | CPanic -> CPanic))
+      | TDerived (_, _, _, _) ->
+        (match collapse_no_versions o c1 with
+         | CTree c1' ->
+           (match collapse_no_versions o c2 with
+            | CTree c2' -> CTree (TDerived (ts, sh, c1', c2'))
+            | CPanic -> CPanic)
+         | CPanic -> CPanic)))
+
+type ('vS, 'vr) step_kind =
+| KBothExternal of ('vS, 'vr) external0 * ('vS, 'vr) external0
+| KBothRef of nat * (pkg0 * 'vS term) list * nat * (pkg0 * 'vS term) list
+| KRefAndExternal of nat * (pkg0 * 'vS term) list * ('vS, 'vr) external0
+| KAndExternal of ('vS, 'vr) external0
+| KAndRef of nat * (pkg0 * 'vS term) list
+| KAndPriorAndExternal of ('vS, 'vr) external0 * ('vS, 'vr) external0
+| KBlank
+| KOnlyExternal of ('vS, 'vr) external0
+
+type ('vS, 'vr) step = { s_kind : ('vS, 'vr) step_kind;
+                         s_concl : (pkg0 * 'vS term) list; s_nums : nat list }
+
+type ('vS, 'vr) rstate = { ref_count : nat;
+                           shared_with_ref : (nat * nat) list;
+                           lines : ('vS, 'vr) step list }
+
+(** val rstate_new : ('a1, 'a2) rstate **)
+
+let rstate_new =
+  { ref_count = O; shared_with_ref = []; lines = [] }
+
+(** val lookup : nat -> (nat * nat) list -> nat option **)
+
+let rec lookup id = function
+| [] -> None
+| p :: r -> let (k, v) = p in if eqb id k then Some v else lookup id r
+
+(** val line_ref_of : ('a1, 'a2) rstate -> nat option -> nat option **)
+
+let line_ref_of st = function
+| Some id -> lookup id st.shared_with_ref
+| None -> None
+
+(** val push :
+    ('a1, 'a2) rstate -> ('a1, 'a2) step_kind -> (pkg0 * 'a1 term) list ->
+    ('a1, 'a2) rstate **)
+
+let push st k concl =
+  { ref_count = st.ref_count; shared_with_ref = st.shared_with_ref; lines =
+    ({ s_kind = k; s_concl = concl; s_nums = [] } :: st.lines) }
+
+(** val add_num : ('a1, 'a2) step -> nat -> ('a1, 'a2) step **)
+
+let add_num s n0 =
+  { s_kind = s.s_kind; s_concl = s.s_concl; s_nums =
+    (app s.s_nums (n0 :: [])) }
+
+(** val add_line_ref : ('a1, 'a2) rstate -> ('a1, 'a2) rstate **)
+
+let add_line_ref st =
+  let n0 = S st.ref_count in
+  { ref_count = n0; shared_with_ref = st.shared_with_ref; lines =
+  (match st.lines with
+   | [] -> []
+   | l :: r -> (add_num l n0) :: r) }
+
+(** val insert_shared :
+    ('a1, 'a2) rstate -> nat -> nat -> ('a1, 'a2) rstate **)
+
+let insert_shared st id n0 =
+  { ref_count = st.ref_count; shared_with_ref = ((id,
+    n0) :: st.shared_with_ref); lines = st.lines }
+
+(** val bind0 :
+    ('a1, 'a2) rstate option -> (('a1, 'a2) rstate -> ('a1, 'a2) rstate
+    option) -> ('a1, 'a2) rstate option **)
+
+let bind0 x f =
+  match x with
+  | Some s -> f s
+  | None -> None
+
+(** val report_recurse_one_each :
+    ((pkg0 * 'a1 term) list -> nat option -> ('a1, 'a2) tree -> ('a1, 'a2)
+    tree -> ('a1, 'a2) rstate -> ('a1, 'a2) rstate option) -> (pkg0 * 'a1
+    term) list -> nat option -> ('a1, 'a2) tree -> ('a1, 'a2) tree -> ('a1,
+    'a2) external0 -> (pkg0 * 'a1 term) list -> ('a1, 'a2) rstate -> ('a1,
+    'a2) rstate option **)
+
+let report_recurse_one_each rec0 dts dsh dc1 dc2 e cur st =
+  match dc1 with
+  | TExternal prior ->
+    (match dc2 with
+     | TExternal _ ->
+       bind0 (rec0 dts dsh dc1 dc2 st) (fun st0 -> Some
+         (push st0 (KAndExternal e) cur))
+     | TDerived (pts, psh, pc1, pc2) ->
+       bind0 (rec0 pts psh pc1 pc2 st) (fun st0 -> Some
+         (push st0 (KAndPriorAndExternal (prior, e)) cur)))
+  | TDerived (pts, psh, pc1, pc2) ->
+    (match dc2 with
+     | TExternal prior ->
+       bind0 (rec0 pts psh pc1 pc2 st) (fun st0 -> Some
+         (push st0 (KAndPriorAndExternal (prior, e)) cur))
+     | TDerived (_, _, _, _) ->
+       bind0 (rec0 dts dsh dc1 dc2 st) (fun st0 -> Some
+         (push st0 (KAndExternal e) cur)))
+
+(** val report_one_each :
+    ((pkg0 * 'a1 term) list -> nat option -> ('a1, 'a2) tree -> ('a1, 'a2)
+    tree -> ('a1, 'a2) rstate -> ('a1, 'a2) rstate option) -> (pkg0 * 'a1
+    term) list -> nat option -> ('a1, 'a2) tree -> ('a1, 'a2) tree -> ('a1,
+    'a2) external0 -> (pkg0 * 'a1 term) list -> ('a1, 'a2) rstate -> ('a1,
+    'a2) rstate option **)
+
+let report_one_each rec0 dts dsh dc1 dc2 e cur st =
+  match line_ref_of st dsh with
+  | Some ref_id -> Some (push st (KRefAndExternal (ref_id, dts, e)) cur)
+  | None -> report_recurse_one_each rec0 dts dsh dc1 dc2 e cur st
+
+(** val build_recursive_helper :
+    ((pkg0 * 'a1 term) list -> nat option -> ('a1, 'a2) tree -> ('a1, 'a2)
+    tree -> ('a1, 'a2) rstate -> ('a1, 'a2) rstate option) -> (pkg0 * 'a1
+    term) list -> nat option -> ('a1, 'a2) tree -> ('a1, 'a2) tree -> ('a1,
+    'a2) rstate -> ('a1, 'a2) rstate option **)
+
+let build_recursive_helper rec0 ts sh c1 c2 st =
+  match c1 with
+  | TExternal e ->
+    (match c2 with
+     | TExternal e2 -> Some (push st (KBothExternal (e, e2)) ts)
+     | TDerived (dts, dsh, dc1, dc2) ->
+       report_one_each rec0 dts dsh dc1 dc2 e ts st)
+  | TDerived (ts1, sh1, a1, b1) ->
+    (match c2 with
+     | TExternal e -> report_one_each rec0 ts1 sh1 a1 b1 e ts st
+     | TDerived (ts2, sh2, a2, b2) ->
+       (match line_ref_of st sh1 with
+        | Some ref1 ->
+          (match line_ref_of st sh2 with
+           | Some ref2 -> Some (push st (KBothRef (ref1, ts1, ref2, ts2)) ts)
+           | None ->
+             bind0 (rec0 ts2 sh2 a2 b2 st) (fun st0 -> Some
+               (push st0 (KAndRef (ref1, ts1)) ts)))
+        | None ->
+          (match line_ref_of st sh2 with
+           | Some ref2 ->
+             bind0 (rec0 ts1 sh1 a1 b1 st) (fun st0 -> Some
+               (push st0 (KAndRef (ref2, ts2)) ts))
+           | None ->
+             bind0 (rec0 ts1 sh1 a1 b1 st) (fun st0 ->
+               match sh1 with
+               | Some _ -> rec0 ts sh c1 c2 (push st0 KBlank [])
+               | None ->
+                 let st1 = add_line_ref st0 in
+                 let ref1 = st1.ref_count in
+                 let st2 = push st1 KBlank [] in
+                 bind0 (rec0 ts2 sh2 a2 b2 st2) (fun st3 -> Some
+                   (push st3 (KAndRef (ref1, ts1)) ts))))))
+
+(** val build_recursive :
+    nat -> (pkg0 * 'a1 term) list -> nat option -> ('a1, 'a2) tree -> ('a1,
+    'a2) tree -> ('a1, 'a2) rstate -> ('a1, 'a2) rstate option **)
+
+let rec build_recursive fuel ts sh c1 c2 st =
+  match fuel with
+  | O -> None
+  | S fuel' ->
+    bind0 (build_recursive_helper (build_recursive fuel') ts sh c1 c2 st)
+      (fun st0 ->
+      match sh with
+      | Some id ->
+        (match lookup id st0.shared_with_ref with
+         | Some _ -> Some st0
+         | None ->
+           let st1 = add_line_ref st0 in
+           Some (insert_shared st1 id st1.ref_count))
+      | None -> Some st0)
+
+(** val tree_size : ('a1, 'a2) tree -> nat **)
+
+let rec tree_size = function
+| TExternal _ -> S O
+| TDerived (_, _, c1, c2) -> S (add (tree_size c1) (tree_size c2))
+
+type ('vS, 'vr) report_res =
+| RSteps of ('vS, 'vr) step list
+| ROutOfFuel
+
+(** val report_with_fuel : nat -> ('a1, 'a2) tree -> ('a1, 'a2) report_res **)
+
+let report_with_fuel fuel = function
+| TExternal e ->
+  RSteps ({ s_kind = (KOnlyExternal e); s_concl = []; s_nums = [] } :: [])
+| TDerived (ts, sh, c1, c2) ->
+  (match build_recursive fuel ts sh c1 c2 rstate_new with
+   | Some st -> RSteps (rev0 st.lines)
+   | None -> ROutOfFuel)
+
+(** val report_steps : ('a1, 'a2) tree -> ('a1, 'a2) report_res **)
+
+let report_steps t0 =
+  report_with_fuel (add (mul (S (S O)) (tree_size t0)) (S (S O))) t0
